@@ -1,0 +1,62 @@
+//go:build verif
+
+package socks5
+
+import (
+	"io"
+	"net"
+
+	"github.com/enfein/mieru/v3/apis/model"
+)
+
+// Exports for the external verification harness (property C10). Add-only; compiled only with -tags verif.
+
+// VerifC10ParseSocks5UDPDatagram calls parseSocks5UDPDatagram.
+func VerifC10ParseSocks5UDPDatagram(pkt []byte) (addr model.AddrSpec, header, payload []byte, err error) {
+	d, err := parseSocks5UDPDatagram(pkt)
+	if err != nil {
+		return model.AddrSpec{}, nil, nil, err
+	}
+	return d.Addr, d.Header, d.Payload, nil
+}
+
+// VerifC10UnwrapSocks5UDPPacket calls unwrapSocks5UDPPacket.
+func VerifC10UnwrapSocks5UDPPacket(pkt []byte) ([]byte, error) { return unwrapSocks5UDPPacket(pkt) }
+
+// VerifC10ParseUDPAssociateDatagram calls parseUDPAssociateDatagram with no resolver.
+func VerifC10ParseUDPAssociateDatagram(pkt []byte) (*net.UDPAddr, []byte, error) {
+	return parseUDPAssociateDatagram(pkt, nil)
+}
+
+// VerifC10HandleAuthentication calls handleAuthentication.
+func VerifC10HandleAuthentication(s *Server, conn net.Conn) error {
+	return s.handleAuthentication(conn)
+}
+
+// VerifC10ReadRequest calls readRequest.
+func VerifC10ReadRequest(s *Server, conn io.Reader) (*model.Request, error) {
+	return s.readRequest(conn)
+}
+
+// VerifC10ClientNegotiateAuthentication calls clientNegotiateAuthentication.
+func VerifC10ClientNegotiateAuthentication(conn io.ReadWriter, user, password string, withCredential bool) error {
+	if withCredential {
+		return clientNegotiateAuthentication(conn, &Credential{User: user, Password: password})
+	}
+	return clientNegotiateAuthentication(conn, nil)
+}
+
+// VerifC10RewriteSocks5ResponseBindPort calls rewriteSocks5ResponseBindPort.
+func VerifC10RewriteSocks5ResponseBindPort(resp *model.Response, port int) error {
+	return rewriteSocks5ResponseBindPort(resp, port)
+}
+
+// VerifC10Socks5UDPAddrFromResponse calls socks5UDPAddrFromResponse.
+func VerifC10Socks5UDPAddrFromResponse(conn net.Conn, resp *model.Response) (*net.UDPAddr, error) {
+	return socks5UDPAddrFromResponse(conn, resp)
+}
+
+// VerifC10ProxySocks5AuthReq calls proxySocks5AuthReq.
+func VerifC10ProxySocks5AuthReq(s *Server, userConn, proxyConn net.Conn) error {
+	return s.proxySocks5AuthReq(userConn, proxyConn)
+}
